@@ -305,7 +305,8 @@ impl Emitter {
 // ------------------------------------------------------------------------------------------
 fn content_alphabet(rng: &mut Rng, n: usize) -> Vec<Vec<u8>> {
     // colliding contents: equal length, shared prefixes, one a prefix of another, a few larger ones
-    let mut v: Vec<Vec<u8>> = vec![vec![1], vec![2], vec![1, 1], vec![1, 2], vec![1, 1, 1], vec![0], vec![0, 0]];
+    // two large contents first (they survive the truncation below): > 16 KiB and > 64 KiB
+    let mut v: Vec<Vec<u8>> = vec![rng.bytes(20_000), vec![1], vec![2], rng.bytes(70_001), vec![1, 1], vec![1, 2], vec![1, 1, 1], vec![0], vec![0, 0]];
     let base = rng.bytes(64);
     let mut near = base.clone();
     near[63] ^= 1;
@@ -509,7 +510,8 @@ pub fn drive_bulk(seed: u64, tier: &str, out: &mut Out) {
                 ops.push(Op::List);
             }
             ops.push(Op::Save);
-            ops.push(Op::Reopen { api: ((k / 2) % 2) as u8 });
+            // reopen with the same API so that the rewrite below is comparable byte for byte (C16)
+            ops.push(Op::Reopen { api: if k % 3 == 0 { 1 - api } else { api } });
             ops.push(Op::Observe);
             ops.push(Op::Count);
             ops.push(Op::List);
@@ -533,7 +535,11 @@ pub fn drive_bulk(seed: u64, tier: &str, out: &mut Out) {
                     ops.push(Op::GetZxy { z, x, y });
                 }
             }
-            // writing the archive that was just read back (C16: same bytes)
+            // writing the archive that was just read back (C16: same bytes); through the API of the first save
+            if k % 3 == 0 {
+                ops.push(Op::Save);
+                ops.push(Op::Reopen { api });
+            }
             ops.push(Op::Save);
             ops.push(Op::Reset);
             let obs = exec(&ops, false);
@@ -690,7 +696,7 @@ fn history_variants(rng: &mut Rng, tiles: &[(u64, Vec<u8>)], set: &Settings, var
                 // save + reopen in the middle: first half becomes reader-backed
                 ops.push(Op::Set(set.clone()));
                 ops.push(Op::Save);
-                ops.push(Op::Reopen { api: rng.below(2) as u8 });
+                ops.push(Op::Reopen { api: ((v / 2) % 2) as u8 });
             }
         }
         if v % 3 != 0 {
